@@ -192,6 +192,24 @@ Theorem c20_channel_discipline : sends_justified chan_send_sites = true.
 Proof. vm_compute. reflexivity. Qed.
 Print Assumptions c20_channel_discipline.
 
+(* double close: closers that go through a test-and-set section (sync.Once.Do, a flag under a mutex)
+   never close twice, in any interleaving; two plain closes do *)
+Theorem c20_chan_close_once_safe : forall s0,
+  closed s0 = false -> flag s0 = false ->
+  (forall t, only (fun a => match a with CFlagClose => true | _ => false end) (cprogs s0 t)) ->
+  ~ cpanics s0.
+Proof. exact once_close_safe. Qed.
+Print Assumptions c20_chan_close_once_safe.
+
+Theorem c20_chan_double_close_refuted : cpanics double_close_start.
+Proof. exact double_close_panics. Qed.
+Print Assumptions c20_chan_double_close_refuted.
+
+(* instance: every close site in lal and naza is shown to run at most once per channel *)
+Theorem c20_channel_close_once : closes_justified chan_close_sites = true.
+Proof. vm_compute. reflexivity. Qed.
+Print Assumptions c20_channel_close_once.
+
 (* ---- the hypotheses matter -------------------------------------------------- *)
 
 (* an inverted order (a then b, and b then a) is rejected by the check and does deadlock *)
